@@ -71,45 +71,87 @@ def _race(cmds, timeout_s):
                     pass
 
 
-def solve_one(job):
-    """Each query runs in its own solver process(es) under a hard wall-clock and memory limit.
-    Floating-point queries race cvc5 against z3 (cvc5's FP bit-blaster is usually an order of magnitude faster);
-    all others go to z3 first and cvc5 takes z3's unknowns."""
-    idx, smt2, timeout_ms, use_cvc5, inst = job
-    tsec = max(1, int(timeout_ms / 1000))
-    if inst is not None:
-        # portfolio member 1: hypotheses' quantifiers replaced by ground instances (sound for unsat only)
-        with tempfile.NamedTemporaryFile("w", suffix=".smt2", delete=False) as f:
-            f.write(inst if "(set-logic" in inst else "(set-logic ALL)\n" + inst)
-            ipath = f.name
-        try:
-            r, secs, backend, reason = _race([("z3-5.1.0", [Z3_BIN, "-T:%d" % min(tsec, 20), "-memory:%d" % MEM_MB, ipath])], min(tsec, 20))
-        finally:
-            os.unlink(ipath)
-        if r == "unsat":
-            return idx, r, secs, backend + "(ground-instantiated)", ""
+def _write_tmp(text):
     with tempfile.NamedTemporaryFile("w", suffix=".smt2", delete=False) as f:
-        f.write(smt2 if "(set-logic" in smt2 else "(set-logic ALL)\n" + smt2)
-        path = f.name
-    z3cmd = [Z3_BIN, "-T:%d" % tsec, "-memory:%d" % MEM_MB, path]
-    cvccmd = ["/usr/bin/cvc5", "--tlimit=%d" % (tsec * 1000), "--fp-exp", path]
+        f.write(text if "(set-logic" in text else "(set-logic ALL)\n" + text)
+        return f.name
+
+
+def _inst_text(smt2):
+    """Ground-instantiated (weaker) version of a query, or None."""
     try:
+        fs = list(z3.parse_smt2_string(smt2))
+        if not any(z3.is_quantifier(e) for e in _walk(fs)):
+            return None
+        inst = instantiate_quantifiers(fs)
+        if inst is None:
+            return None
+        inst = ackermannize(inst)
+        s = z3.Solver()
+        for f in inst:
+            s.add(f)
+        return s.to_smt2()
+    except z3.Z3Exception:
+        return None
+
+
+def solve_one(job):
+    """Runs in a worker process.  Portfolio per query, each member a separate solver process under hard limits:
+      1. z3 on the query (short budget) - or cvc5 raced against z3 for floating-point queries;
+      2. if quantifiers are present: the ground-instantiated, weaker query (only its ``unsat`` counts);
+      3. z3 with the full budget, then cvc5.
+    Covers/canaries (expected ``sat``) use the ground-instantiated query only."""
+    idx, smt2, timeout_ms, use_cvc5, expect_sat = job
+    tsec = max(1, int(timeout_ms / 1000))
+    has_q = "(forall" in smt2 or "(exists" in smt2
+    paths = []
+    try:
+        if expect_sat:
+            text = (_inst_text(smt2) if has_q else None) or smt2
+            path = _write_tmp(text)
+            paths.append(path)
+            r, secs, backend, reason = _race([("z3-5.1.0", [Z3_BIN, "-T:10", "-memory:%d" % MEM_MB, path])], 10)
+            return idx, r, secs, backend, reason
+        path = _write_tmp(smt2)
+        paths.append(path)
+        z3cmd = lambda t: [Z3_BIN, "-T:%d" % t, "-memory:%d" % MEM_MB, path]
+        cvccmd = ["/usr/bin/cvc5", "--tlimit=%d" % (tsec * 1000), "--fp-exp", path]
         if "FloatingPoint" in smt2 and use_cvc5:
-            return (idx,) + _race([("z3-5.1.0", z3cmd), ("cvc5-1.0.3", cvccmd)], tsec)
-        r, secs, backend, reason = _race([("z3-5.1.0", z3cmd)], tsec)
-        if r == "unknown" and use_cvc5:
-            r3, s3, b3, reason3 = _race([("cvc5-1.0.3", cvccmd)], tsec)
-            secs += s3
-            if r3 != "unknown":
-                r, reason, backend = r3, reason3, b3
-            else:
-                reason = "%s | %s" % (reason, reason3)
-        return idx, r, secs, backend, reason
+            return (idx,) + _race([("z3-5.1.0", z3cmd(tsec)), ("cvc5-1.0.3", cvccmd)], tsec)
+        first = min(tsec, 8) if has_q else tsec
+        r, secs, backend, reason = _race([("z3-5.1.0", z3cmd(first))], first)
+        if r != "unknown":
+            return idx, r, secs, backend, reason
+        if has_q:
+            t0 = time.time()
+            inst = _inst_text(smt2)
+            secs += time.time() - t0
+            if inst is not None:
+                ipath = _write_tmp(inst)
+                paths.append(ipath)
+                r2, s2, b2, reason2 = _race([("z3-5.1.0", [Z3_BIN, "-T:%d" % min(tsec, 30), "-memory:%d" % MEM_MB, ipath])], min(tsec, 30))
+                secs += s2
+                if r2 == "unsat":
+                    return idx, r2, secs, b2 + "(ground-instantiated)", ""
+            if tsec > first:
+                r3, s3, b3, reason3 = _race([("z3-5.1.0", z3cmd(tsec))], tsec)
+                secs += s3
+                if r3 != "unknown":
+                    return idx, r3, secs, b3, reason3
+                reason = reason3
+        if use_cvc5:
+            r4, s4, b4, reason4 = _race([("cvc5-1.0.3", cvccmd)], tsec)
+            secs += s4
+            if r4 != "unknown":
+                return idx, r4, secs, b4, reason4
+            reason = "%s | %s" % (reason, reason4)
+        return idx, "unknown", secs, backend, reason
     finally:
-        try:
-            os.unlink(path)
-        except OSError:
-            pass
+        for p in paths:
+            try:
+                os.unlink(p)
+            except OSError:
+                pass
 
 
 def discharge(obligations, timeout_ms=30000, use_cvc5=True, jobs=None):
@@ -121,14 +163,15 @@ def discharge(obligations, timeout_ms=30000, use_cvc5=True, jobs=None):
         if z3.is_true(g):
             ob.result, ob.seconds, ob.backend = "unsat", 0.0, "simplifier"
             continue
-        work.append((i, obligation_smt2(ob), timeout_ms, use_cvc5, obligation_inst_smt2(ob)))
+        work.append((i, obligation_smt2(ob), timeout_ms, use_cvc5, bool(ob.expect_fail)))
     if not work:
         return
     if len(work) == 1 or jobs == 1:
         results = [solve_one(w) for w in work]
     else:
-        with cf.ThreadPoolExecutor(max_workers=min(jobs, len(work))) as ex:
-            results = list(ex.map(solve_one, work))
+        mp = multiprocessing.get_context("fork")
+        with cf.ProcessPoolExecutor(max_workers=min(jobs, len(work)), mp_context=mp) as ex:
+            results = list(ex.map(solve_one, work, chunksize=1))
     for idx, r, secs, backend, reason in results:
         ob = obligations[idx]
         ob.result, ob.seconds, ob.backend = r, secs, backend
@@ -318,32 +361,36 @@ def ackermannize(formulas, rounds=4, subs_out=None):
 
 
 # ------------------------------------------------------------------ manual quantifier instantiation (portfolio member)
-def _ground_int_terms(fs):
-    """Ground integer terms used as array indices or as arguments of uninterpreted functions."""
-    terms = {}
+def _ground_terms_by_sort(fs, sorts):
+    """Candidate instantiation terms per sort: array-sorted ground subterms; integer ground terms used as indices,
+    as arguments of uninterpreted functions, plus integer constants and their negations."""
+    out = {s: {} for s in sorts}
     cache = {}
+    int_s = z3.IntSort()
     for e in _walk(fs):
         if z3.is_quantifier(e) or not z3.is_app(e):
             continue
+        es = e.sort()
+        if z3.is_array(e) and es in out and not _contains_var(e, cache):
+            out[es][e.get_id()] = e
+        if int_s not in out:
+            continue
         cands = []
-        if z3.is_select(e):
-            cands = [e.arg(1)]
-        elif z3.is_store(e):
+        if z3.is_select(e) or z3.is_store(e):
             cands = [e.arg(1)]
         elif e.decl().kind() == z3.Z3_OP_UNINTERPRETED and e.num_args() > 0:
             cands = e.children()
-        if z3.is_const(e) and e.sort() == z3.IntSort() and e.decl().kind() == z3.Z3_OP_UNINTERPRETED:
-            # integer constants and their negations (witnesses such as k = -q for congruences)
-            terms[e.get_id()] = e
+        if z3.is_const(e) and es == int_s and e.decl().kind() == z3.Z3_OP_UNINTERPRETED:
+            out[int_s][e.get_id()] = e
             neg = z3.simplify(-e)
-            terms[neg.get_id()] = neg
+            out[int_s][neg.get_id()] = neg
         for c in cands:
-            if c.sort() == z3.IntSort() and not _contains_var(c, cache):
-                terms[c.get_id()] = c
-    return list(terms.values())
+            if c.sort() == int_s and not _contains_var(c, cache):
+                out[int_s][c.get_id()] = c
+    return {s: list(d.values()) for s, d in out.items()}
 
 
-def instantiate_quantifiers(formulas, rounds=2, max_inst=600):
+def instantiate_quantifiers(formulas, rounds=3, max_inst=400):
     """NNF + skolemisation (z3 tactic), then every remaining universal quantifier over integers is replaced by its
     instances at the ground index terms of the query.  The result is WEAKER than the input (hypotheses dropped), so
     ``unsat`` of the result proves the original obligation; any other answer is inconclusive."""
@@ -364,35 +411,47 @@ def instantiate_quantifiers(formulas, rounds=2, max_inst=600):
             fs.append(f)
     if not any(z3.is_quantifier(f) for f in _walk(fs)):
         return None
-    for _ in range(rounds):
+    import itertools
+    for rnd in range(rounds):
         ground = [f for f in fs if not z3.is_quantifier(f)]
         quants = [f for f in fs if z3.is_quantifier(f)]
-        terms = _ground_int_terms(fs)
-        new = []
+        need = set()
         for q in quants:
             if not q.is_forall():
                 return None
+            for i in range(q.num_vars()):
+                need.add(q.var_sort(i))
+        terms = _ground_terms_by_sort(fs, need)
+        new = []
+        for q in quants:
             n = q.num_vars()
-            if any(q.var_sort(i) != z3.IntSort() for i in range(n)):
-                return None
-            import itertools
-            combos = list(itertools.islice(itertools.product(terms, repeat=n), max_inst))
-            for combo in combos:
+            pools = [terms.get(q.var_sort(i), []) for i in range(n)]
+            if any(not p for p in pools):
+                continue
+            for combo in itertools.islice(itertools.product(*pools), max_inst):
                 # de Bruijn: variable 0 is the LAST bound variable
-                inst = z3.substitute_vars(q.body(), *reversed(combo))
-                new.append(inst)
+                new.append(z3.substitute_vars(q.body(), *reversed(combo)))
         flat = []
         for f in new:
             f = z3.simplify(f)
             if z3.is_true(f):
                 continue
-            flat.append(f)
-        # nested quantifiers inside instances are kept for the next round
-        fs = ground + flat
-        if _ == 0:
-            fs = fs + quants  # second round sees terms created by the first
-            continue
+            if z3.is_and(f):
+                flat.extend(f.children())
+            else:
+                flat.append(f)
+        fs = ground + flat + (quants if rnd < rounds - 1 else [])
     fs = [f for f in fs if not z3.is_quantifier(f)]
-    if any(z3.is_quantifier(e) for e in _walk(fs)):
-        return None
-    return fs
+    # instances that still contain (nested) quantifiers are dropped as well: the result only gets weaker
+    keep = []
+    for f in fs:
+        if any(z3.is_quantifier(e) for e in _walk([f])):
+            continue
+        keep.append(f)
+    # de-duplicate
+    seen, out2 = set(), []
+    for f in keep:
+        if f.get_id() not in seen:
+            seen.add(f.get_id())
+            out2.append(f)
+    return out2
